@@ -204,6 +204,7 @@ func (sc *SlotChain) Entry(ctx *EntryContext) *TokenResult {
 	// execute statistic slot
 	ss := sc.stats
 	ruleCheckRet = ctx.RuleCheckResult
+	ctx.statNotified = true
 	if len(ss) > 0 {
 		for _, s := range ss {
 			// indicate the result of rule based checking slot.
@@ -226,6 +227,12 @@ func (sc *SlotChain) exit(ctx *EntryContext) {
 	}
 	// The OnCompleted is called only when entry passed
 	if ctx.IsBlocked() {
+		return
+	}
+	// An internal panic before the statistic phase lets the request pass without
+	// OnEntryPassed having been called; reporting a completion for it would
+	// unbalance the statistics (e.g. drive the concurrency gauge negative).
+	if !ctx.statNotified {
 		return
 	}
 	for _, s := range sc.stats {
